@@ -359,3 +359,178 @@ def oer_sweep(run, model, jobs, rng, tier, name):
                 run.violation("oracle:oer_complete", dict(rp, what="the C OER decoder does not return OK / full length / the value on a valid encoding "
                                                                    "(a length determinant in a legal non-canonical form at position %s)" % lab))
         run.sample({"type": meta[-1][0]["ts"][:100], "oer": meta[-1][0]["canon"][:60], "variant": meta[-1][2].hex()[:80], "choices": meta[-1][3][:60]})
+
+
+# ---------------------------------------------------------------- OER: the other call sites of oer_fetch_length (C only)
+
+MO5_TEXT = """MO5 DEFINITIONS AUTOMATIC TAGS ::= BEGIN
+  En ::= ENUMERATED { a(0), b(5), c(127), d(128), e(-1), f(70000) }
+  XI ::= SEQUENCE { a INTEGER (0..255), ..., b INTEGER OPTIONAL, c OCTET STRING OPTIONAL }
+  XC ::= CHOICE { p INTEGER (0..255), ..., q OCTET STRING, r XI }
+  W ::= SEQUENCE {
+     bs BIT STRING,
+     oid OBJECT IDENTIFIER,
+     re REAL,
+     ia IA5String,
+     u8 UTF8String,
+     bmp BMPString,
+     en En,
+     roid RELATIVE-OID,
+     i INTEGER,
+     inner XI,
+     lst SEQUENCE OF XI,
+     ch XC,
+     chs SEQUENCE OF XC
+  }
+END
+"""
+
+# layout of the canonical OER encoding of W (X.696): what lib/c03_oerpos.py needs to find the determinants
+BLOB = ("blob",)
+L_XI = ("xseq", [("fix", 1)], [BLOB, BLOB])
+L_XC = ("xchoice", {0x80: ("fix", 1)}, {0x81: BLOB, 0x82: L_XI})
+L_W = ("seq", [BLOB, BLOB, BLOB, BLOB, BLOB, BLOB, ("enum",), BLOB, BLOB, L_XI, ("qty", L_XI), L_XC, ("qty", L_XC)])
+
+
+def wide_module():
+    return {"name": "MO5", "default": "AUTOMATIC", "defs": [("En", None), ("XI", None), ("XC", None), ("W", None)], "trees": {}, "text": MO5_TEXT}
+
+
+def wide_values(tier):
+    xi = lambda a, b=None, c=None: "<a>%d</a>" % a + ("<b>%d</b>" % b if b is not None else "") + ("<c>%s</c>" % c if c is not None else "")
+    v1 = ("<W><bs>1010001</bs><oid>1.2.840.113549</oid><re>1.5</re><ia>hello</ia><u8>gruen</u8><bmp>ab</bmp><en><f/></en><roid>8571.3.2</roid>"
+          "<i>-70000</i><inner>%s</inner><lst><XI>%s</XI><XI>%s</XI></lst><ch><r>%s</r></ch><chs><p>4</p><q>CAFE</q><r>%s</r></chs></W>"
+          % (xi(5, 7, "AB"), xi(1), xi(2, None, "0102"), xi(9, 300), xi(3, None, "")))
+    v2 = ("<W><bs></bs><oid>2.5</oid><re>0</re><ia></ia><u8></u8><bmp></bmp><en><a/></en><roid>0</roid><i>0</i><inner>%s</inner><lst></lst>"
+          "<ch><p>200</p></ch><chs></chs></W>" % xi(0))
+    long_ia = "".join(chr(65 + (i * 7) % 26) for i in range(200))
+    v3 = ("<W><bs>%s</bs><oid>1.3.6.1.4.1.99999.1.2.3.4.5.6.7.8.9.10.11.12.13.14.15.16.17.18.19.20.21.22.23.24.25.26.27.28.29.30.31.32.33.34.35.36.37.38.39.40.41.42.43.44.45.46.47.48.49.50.51.52.53.54.55.56.57.58.59.60.61.62.63.64</oid>"
+          "<re>-123456.789</re><ia>%s</ia><u8>%s</u8><bmp>%s</bmp><en><e/></en><roid>1.2.3</roid><i>9223372036854775807</i><inner>%s</inner><lst>%s</lst>"
+          "<ch><q>%s</q></ch><chs>%s</chs></W>"
+          % ("10" * 700, long_ia, long_ia[:130], long_ia[:70], xi(255, -5, "AA" * 150),
+             "".join("<XI>%s</XI>" % xi(i % 256, (i if i % 3 == 0 else None), ("%02X" % (i % 256) if i % 5 == 0 else None)) for i in range(300 if tier != "quick" else 130)),
+             "BB" * 300, "".join("<p>%d</p>" % (i % 256) if i % 2 else "<q>%02X</q>" % (i % 256) for i in range(20))))
+    return [("v1", v1), ("v2", v2), ("v3", v3)]
+
+
+def canon_len(b, pos):
+    """a length determinant in its canonical form at b[pos:] -> (value, next position)"""
+    first = b[pos]
+    if first < 128:
+        return first, pos + 1
+    k = first - 128
+    if k == 0 or pos + 1 + k > len(b):
+        raise ValueError("bad length determinant")
+    return int.from_bytes(b[pos + 1:pos + 1 + k], "big"), pos + 1 + k
+
+
+def layout_parse(lay, b, pos):
+    """canonical OER octets -> (segments of lib/c03_oerpos.py, next position)"""
+    k = lay[0]
+    if k == "blob":
+        n, p = canon_len(b, pos)
+        if p + n > len(b):
+            raise ValueError("blob exceeds buffer")
+        return [("open", "blob", [("raw", bytes(b[p:p + n]))])], p + n
+    if k == "fix":
+        return [("raw", bytes(b[pos:pos + lay[1]]))], pos + lay[1]
+    if k == "enum":
+        n = 1 if b[pos] < 128 else 1 + (b[pos] & 127)
+        return [("raw", bytes(b[pos:pos + n]))], pos + n
+    if k == "seq":
+        out = []
+        for it in lay[1]:
+            s, pos = layout_parse(it, b, pos)
+            out += s
+        return out, pos
+    if k == "qty":
+        ln, p = canon_len(b, pos)
+        n = int.from_bytes(b[p:p + ln], "big")
+        out, pos = [("qty", n)], p + ln
+        for _ in range(n):
+            s, pos = layout_parse(lay[1], b, pos)
+            out += s
+        return out, pos
+    if k == "xseq":
+        ext = bool(b[pos] & 0x80)
+        out, pos = [("raw", bytes(b[pos:pos + 1]))], pos + 1
+        for it in lay[1]:
+            s, pos = layout_parse(it, b, pos)
+            out += s
+        if ext:
+            n, p = canon_len(b, pos)
+            bm = bytes(b[p:p + n])
+            out.append(("open", "bitmap", [("raw", bm)]))
+            pos = p + n
+            nbits = 8 * (len(bm) - 1) - (bm[0] & 7)
+            for i in range(nbits):
+                if bm[1 + i // 8] & (0x80 >> (i % 8)):
+                    if i >= len(lay[2]):
+                        raise ValueError("unknown addition in the C's own encoding")
+                    n, p = canon_len(b, pos)
+                    inner, q = layout_parse(lay[2][i], b, p)
+                    if q != p + n:
+                        raise ValueError("open type length mismatch")
+                    out.append(("open", "add", inner))
+                    pos = q
+        return out, pos
+    if k == "xchoice":
+        t = b[pos]
+        out, pos = [("raw", bytes(b[pos:pos + 1]))], pos + 1
+        if t in lay[1]:
+            s, pos = layout_parse(lay[1][t], b, pos)
+            return out + s, pos
+        n, p = canon_len(b, pos)
+        inner, q = layout_parse(lay[2][t], b, p)
+        if q != p + n:
+            raise ValueError("open type length mismatch")
+        return out + [("open", "alt", inner)], q
+    raise ValueError(k)
+
+
+def wide_oer_part(run, m, rng, tier):
+    """the call sites of oer_fetch_length outside the modelled algebra (BIT STRING, OBJECT IDENTIFIER / RELATIVE-OID through
+    oer_decode_primitive, REAL, the restricted string types, extensible types nested in SEQUENCE OF / CHOICE / open types):
+    values given as XER, the C's own CANONICAL-OER parsed along the type (layout_parse), every determinant re-written;
+    oracle on the C alone (no Coq model of these types)"""
+    if not m.get("exe"):
+        run.violation("build:module", {"what": "the hand-made module MO5 was rejected or its code does not compile", "module": m["text"],
+                                       "asn1c_out": m.get("asn1c_out", "")[-1200:], "build_log": m.get("build_log", "")[-1200:]})
+        return
+    vals = wide_values(tier)
+    l1 = []
+    for lab, x in vals:
+        l1 += ["xcode W xer %s coer" % x.encode().hex(), "xcode W xer %s der" % x.encode().hex()]
+    o1 = run_mod(run, m, l1, "C03-oer-wide-enc")
+    lines, meta = [], []
+    for i, (lab, x) in enumerate(vals):
+        oo, od = o1[2 * i], o1[2 * i + 1]
+        rp = {"module": m["text"], "type": "W", "value_xer": x[:3000], "c": oo[:300] + " / " + od[:300]}
+        if not oo.startswith("OK ") or not od.startswith("OK "):
+            run.violation("oracle:oer_wide_encode", dict(rp, what="the C does not transcode a valid XER value to OER / DER"))
+            continue
+        canon = bytes.fromhex(oo.split()[1])
+        der = od.split()[1]
+        try:
+            segs, end = layout_parse(L_W, canon, 0)
+            if end != len(canon) or P.render(segs) != canon:
+                raise ValueError("layout does not cover the encoding")
+        except (ValueError, IndexError, KeyError) as e:
+            run.violation("harness:oer-layout", dict(rp, what="cannot parse the C's canonical OER along the type: %s" % e, oer=canon.hex()[:4000]), no_input=True)
+            continue
+        ndet = len(P.determinants(segs))
+        maxpos = None if ndet <= 80 else (40 if tier == "quick" else 160)       # (every position of the small values)
+        for vlab, forms, b in P.sweep(segs, rng, max_positions=maxpos, nmix=(3 if tier == "quick" else 10), wide_all=(tier != "quick")):
+            lines.append("dec W oer %s" % b.hex())
+            meta.append((lab, vlab, b, der, x))
+    out = run_mod(run, m, lines, "C03-oer-wide")
+    for (lab, vlab, b, der, x), l, o in zip(meta, lines, out):
+        run.case(l)
+        run.count("oer_wide_%s" % vlab.split("@")[0].split(":")[0])
+        if not o.startswith("OK %d %s ck=" % (len(b), der)):
+            run.violation("oracle:oer_complete", {"module": m["text"], "type": "W", "value_xer": x[:3000], "variant_kind": vlab, "command_line": l[:6000], "c": o[:600],
+                                                  "expected": ("OK %d %s" % (len(b), der))[:3000],
+                                                  "what": "the C OER decoder does not return OK / full length / the value on a valid encoding "
+                                                          "(a length determinant in a legal non-canonical form at position %s)" % vlab})
+    if meta:
+        run.sample({"type": "MO5.W", "variant": meta[-1][1], "oer": meta[-1][2].hex()[:80]})
